@@ -36,8 +36,11 @@ def run(ctx):
     ctx.guard('C08.analysable', ctx.shared, {'C05.h-grow-only-lengths': 'C08.g-reset-reaches-every-configuration'}, c05_.grow_only_lengths, ctx, ctx.facts(cfgs[0]), cfgs[0])
     ctx.rule('C08.i-envelope-works-on-every-engine', 'a configuration inside the envelope encodes and decodes on every engine: the optimised engines run the transform schedule of the reference form (clause shared with C03.a)')
     from . import c03 as c03_
-    for c_ in ('x86_64', 'aarch64'):
+    for c_ in ('x86_64',):      # the Neon schedule is compared by C03 / C09 / C14 (aarch64 facts); here the x86 engines
         ctx.guard('C08.analysable', ctx.shared, {'C03.a-schedule-siblings': 'C08.i-envelope-works-on-every-engine'}, c03_.schedules, ctx, ctx.facts(c_), c_)
+    ctx.rule('C08.j-every-size-repacked-once', 'a supported configuration works for every even shard size: the final-block re-packing runs exactly once on every path that produces a result, for both rates (clause shared with C04.b)')
+    from . import c04 as c04_
+    ctx.guard('C08.analysable', ctx.shared, {'C04.b-unencode-once-last': 'C08.j-every-size-repacked-once'}, c04_.unencode, ctx, ctx.facts(cfgs[0]), cfgs[0])
     ctx.rule('C08.h-documented-envelope', 'the acceptance conditions of HighRate::supports, LowRate::supports and of the rate decision are, atom by atom, the documented ones (counts non-zero, below / at most 65536, next_power_of_two of one count plus the other at most 65536; default: min of the powers plus max of the counts); comparisons are normalised (direction, strictness, zero tests, range contains, negation), the rate-choosing comparisons of the decision are not part of it')
     ctx.rule('C08.e-space-for-every-position', 'the decoder sizes its received bitmap from the configuration — max(original_base_pos + original_count, recovery_base_pos + recovery_count) — so that every position of every supported configuration, up to the edge of the envelope, can be marked')
     ctx.rule('C08.f-table-passes-cover-the-table', 'a loop that rewrites a fixed-size table in place element by element (t[i] = f(t[i])) runs over the whole table, 0..len: the last entries are read only by configurations at the edge of the envelope')
